@@ -3,96 +3,49 @@ From V Require Import Common.Base Parsers.PrsOutcome Parsers.PrsJ2k Parsers.PrsP
 
 Definition hexb (l : list Z) : Prop := bytes l.
 
-(* ---------- witnesses: the code as it stands panics ---------- *)
-(* SOC, SIZ (1x1, one component), QCD with Lqcd = 2 : make([]byte, -1) *)
-Definition k_siz_1x1 : list Z :=
-  [255; 81; 0; 41; 0; 0;  0;0;0;1; 0;0;0;1; 0;0;0;0; 0;0;0;0; 0;0;0;1; 0;0;0;1; 0;0;0;0; 0;0;0;0; 0;1; 7;1;1].
-Definition k_qcd_witness : list Z := [255; 79] ++ k_siz_1x1 ++ [255; 92; 0; 2; 0].
-Definition k_com_witness : list Z := [255; 79] ++ k_siz_1x1 ++ [255; 100; 0; 2; 0; 0].
-
-Theorem k_parse_qcd_panics_refuted : exists d, bytes d /\ fst (k_main_header false (fuel_of d) d) = Panic.
-Proof.
-  exists k_qcd_witness. split; [|vm_compute; reflexivity].
-  unfold bytes, k_qcd_witness, k_siz_1x1. cbn [app]. repeat constructor; lia.
-Qed.
-Theorem k_parse_com_panics_refuted : exists d, bytes d /\ fst (k_main_header false (fuel_of d) d) = Panic.
-Proof.
-  exists k_com_witness. split; [|vm_compute; reflexivity].
-  unfold bytes, k_com_witness, k_siz_1x1. cbn [app]. repeat constructor; lia.
-Qed.
-
-(* NewTileAssembler: SIZ with Xsiz = Ysiz = 2^32-1 asks for (2^32-1)^2 int32 -> makeslice panic;
-   the request is not bounded by anything the 64 KiB input could justify *)
-Definition siz_max : ksiz := mkSiz 4294967295 4294967295 0 0 4294967295 4294967295 0 0 1.
-Theorem k_assembler_panics_refuted : fst (k_assembler siz_max) = Panic.
-Proof. vm_compute. reflexivity. Qed.
-(* and with extents 2^20 x 2^20 it does not panic but requests 4 TiB *)
-Definition siz_big : ksiz := mkSiz 1048576 1048576 0 0 1048576 1048576 0 0 1.
-Theorem k_assembler_alloc_big : fst (k_assembler siz_big) = Ok tt /\ In (4 * (1048576 * 1048576)) (snd (k_assembler siz_big)).
-Proof. vm_compute. split; [reflexivity|tauto]. Qed.
-
-(* the request of the assembler is 4 bytes per declared sample: 4 * W*H per component, for
-   every SIZ whose offsets do not exceed the extents *)
-Lemma k_comp_allocs_bound : forall k n B, n * 4 <= B -> Forall (fun a => a <= B) (snd (k_comp_allocs k n)).
-Proof.
-  induction k as [|k IH]; intros n B H; cbn [k_comp_allocs]; [constructor|].
-  apply bind_allocs; [apply alloc_allocs; exact H|]. intros [] l _. apply IH; exact H.
-Qed.
-Theorem k_assembler_alloc : forall s,
-  0 <= s_xo s <= s_x s -> s_x s < 2 ^ 32 -> 0 <= s_yo s <= s_y s -> s_y s < 2 ^ 32 -> 0 <= s_c s <= 16384 ->
-  Forall (fun a => a <= 4 * ((s_x s - s_xo s) * (s_y s - s_yo s)) + 24 * 16384) (snd (k_assembler s)).
-Proof.
-  intros s Hx Hx2 Hy Hy2 Hc. unfold k_assembler.
-  assert (H0 : 0 <= (s_x s - s_xo s) * (s_y s - s_yo s)) by (apply Z.mul_nonneg_nonneg; lia).
-  assert (H1 : (s_x s - s_xo s) * (s_y s - s_yo s) <= 2 ^ 32 * 2 ^ 32) by (apply Z.mul_le_mono_nonneg; lia).
-  assert (Hi : i64 ((s_x s - s_xo s) * (s_y s - s_yo s)) <= (s_x s - s_xo s) * (s_y s - s_yo s)).
-  { unfold i64, wrapS. set (v := (s_x s - s_xo s) * (s_y s - s_yo s)) in *.
-    assert (v mod 2 ^ 64 <= v) by (apply Z.mod_le; [lia|apply Z.pow_pos_nonneg; lia]).
-    destruct (v mod 2 ^ 64 <? 2 ^ (64 - 1)); [lia|]. assert (0 < 2 ^ 64) by (apply Z.pow_pos_nonneg; lia). lia. }
-  apply bind_allocs.
-  - apply alloc_allocs. lia.
-  - intros [] l _. apply k_comp_allocs_bound. lia.
-Qed.
+(* Historical witnesses (all fixed in /repo, findings F38-F41): QCD with Lqcd = 2 and COM with Lcom = 2
+   made make([]byte, negative) panic; SIZ with XTsiz = 0 divided by zero in NewTileDecoder; SIZ with
+   Xsiz = Ysiz = 2^32-1 overflowed make in NewTileAssembler; extents 2^20 x 2^20 requested 4 TiB. *)
 
 (* ================= no panic / fuel / small requests for the main header ================= *)
 Definition KB : Z := 1048576.
 
-Lemma k_rd8_good : forall g d o, bytes d -> 0 <= o ->
-  good g KB (fun x => snd x = o + 1 /\ 0 <= fst x < 256) (k_rd8 d o).
+Lemma k_rd8_good : forall d o, bytes d -> 0 <= o ->
+  good true KB (fun x => snd x = o + 1 /\ 0 <= fst x < 256) (k_rd8 d o).
 Proof.
   intros. unfold k_rd8. destruct (zlen d <? o + 1); [apply good_err|].
   apply good_ret. cbn [fst snd]. split; [reflexivity|apply bytes_znth; auto].
 Qed.
-Lemma k_rd16_good : forall g d o, bytes d -> 0 <= o ->
-  good g KB (fun x => snd x = o + 2 /\ 0 <= fst x <= 65535 /\ o + 2 <= zlen d) (k_rd16 d o).
+Lemma k_rd16_good : forall d o, bytes d -> 0 <= o ->
+  good true KB (fun x => snd x = o + 2 /\ 0 <= fst x <= 65535 /\ o + 2 <= zlen d) (k_rd16 d o).
 Proof.
   intros. unfold k_rd16. destruct (Z.ltb_spec (zlen d) (o + 2)); [apply good_err|].
   apply good_ret. cbn [fst snd]. split; [reflexivity|].
   pose proof (bytes_znth d o H). pose proof (bytes_znth d (o + 1) H). lia.
 Qed.
-Lemma k_rd32_good : forall g d o, bytes d -> 0 <= o ->
-  good g KB (fun x => snd x = o + 4 /\ 0 <= fst x < 4294967296) (k_rd32 d o).
+Lemma k_rd32_good : forall d o, bytes d -> 0 <= o ->
+  good true KB (fun x => snd x = o + 4 /\ 0 <= fst x < 4294967296) (k_rd32 d o).
 Proof.
   intros. unfold k_rd32. destruct (zlen d <? o + 4); [apply good_err|].
   apply good_ret. cbn [fst snd]. split; [reflexivity|].
   pose proof (bytes_znth d o H). pose proof (bytes_znth d (o + 1) H).
   pose proof (bytes_znth d (o + 2) H). pose proof (bytes_znth d (o + 3) H). lia.
 Qed.
-Lemma k_read_buf_good : forall g d o n, 0 <= n <= 65535 ->
-  good g KB (fun o' => o' = o + n) (k_read_buf d o n).
+Lemma k_read_buf_good : forall d o n, 0 <= n <= 65535 ->
+  good true KB (fun o' => o' = o + n) (k_read_buf d o n).
 Proof.
   intros. unfold k_read_buf.
   eapply good_bind; [apply good_alloc with (post := fun _ => True); [lia|rewrite maxAlloc_val; lia|unfold KB; lia|exact I]|].
   intros _ _. destruct (zlen d <? o + n); [apply good_err|apply good_ret; reflexivity].
 Qed.
-Lemma k_rd_bytes_good : forall g d k o, bytes d -> 0 <= o -> good g KB (fun o' => o <= o') (k_rd_bytes d k o).
+Lemma k_rd_bytes_good : forall d k o, bytes d -> 0 <= o -> good true KB (fun o' => o <= o') (k_rd_bytes d k o).
 Proof.
-  intros g d k. induction k as [|k IH]; intros o Hb Ho; cbn [k_rd_bytes]; [apply good_ret; lia|].
+  intros d k. induction k as [|k IH]; intros o Hb Ho; cbn [k_rd_bytes]; [apply good_ret; lia|].
   eapply good_bind; [apply k_rd8_good; auto|]. intros [v o1] (E & _). cbn [fst snd] in *. subst o1.
   eapply good_weaken; [apply IH; [auto|lia]|lia|]. cbv beta; intros; lia.
 Qed.
-Lemma k_rd_comp_good : forall g cs d o, bytes d -> 0 <= o ->
-  good g KB (fun x => o <= snd x /\ 0 <= fst x <= 65535) (k_rd_comp cs d o).
+Lemma k_rd_comp_good : forall cs d o, bytes d -> 0 <= o ->
+  good true KB (fun x => o <= snd x /\ 0 <= fst x <= 65535) (k_rd_comp cs d o).
 Proof.
   intros. unfold k_rd_comp. destruct (comp_bytes cs =? 2).
   - eapply good_weaken; [apply k_rd16_good; auto|lia|]. cbv beta. intros a (E & R & _). lia.
@@ -105,49 +58,67 @@ Ltac rd8 v o E := eapply good_bind; [apply k_rd8_good; [assumption|lia]|]; intro
 Ltac rd16 v o E := eapply good_bind; [apply k_rd16_good; [assumption|lia]|]; intros [v o] (E & ? & ?); cbn [fst snd] in *; subst o.
 Ltac rd32 v o E := eapply good_bind; [apply k_rd32_good; [assumption|lia]|]; intros [v o] (E & ?); cbn [fst snd] in *; subst o.
 
-Lemma k_skip_good : forall g d o, bytes d -> 0 <= o -> good g KB (fun o' => o <= o') (k_skip_segment d o).
+Lemma k_skip_good : forall d o, bytes d -> 0 <= o -> good true KB (fun o' => o <= o') (k_skip_segment d o).
 Proof.
   intros. unfold k_skip_segment. rd16 l o1 E.
   destruct (zlen d <? o + 2 + (l - 2)); [apply good_err|apply good_ret; lia].
 Qed.
 
-Lemma k_siz_comps_good : forall g d k o, bytes d -> 0 <= o -> good g KB (fun o' => o <= o') (k_siz_comps d k o).
+Lemma k_siz_comps_good : forall d k o, bytes d -> 0 <= o -> good true KB (fun o' => o <= o') (k_siz_comps d k o).
 Proof.
-  intros g d k. induction k as [|k IH]; intros o Hb Ho; cbn [k_siz_comps]; [apply good_ret; lia|].
+  intros d k. induction k as [|k IH]; intros o Hb Ho; cbn [k_siz_comps]; [apply good_ret; lia|].
   rd8 a o1 E1. rd8 b o2 E2. rd8 c o3 E3.
+  destruct ((b =? 0) || (c =? 0)); [apply good_err|].
   eapply good_weaken; [apply IH; [auto|lia]|lia|]. cbv beta; intros; lia.
 Qed.
 
-Lemma k_parse_siz_good : forall g d o, bytes d -> 0 <= o ->
-  good g KB (fun x => o <= snd x /\ 0 <= s_c (fst x) <= 65535) (k_parse_siz d o).
+(* the SIZ geometry accepted by parseSIZ (F39/F40) *)
+Definition siz_ok (s : ksiz) : Prop :=
+  0 <= s_xo s < s_x s /\ s_x s < 4294967296 /\ 0 <= s_yo s < s_y s /\ s_y s < 4294967296 /\
+  1 <= s_xt s /\ 1 <= s_yt s /\ 1 <= s_c s <= 16384 /\ (s_x s - s_xo s) * (s_y s - s_yo s) <= 2 ^ 31.
+
+Lemma k_parse_siz_good : forall d o, bytes d -> 0 <= o ->
+  good true KB (fun x => o <= snd x /\ siz_ok (fst x)) (k_parse_siz d o).
 Proof.
   intros. unfold k_parse_siz.
   rd16 len o1 E1. rd16 rs o2 E2. rd32 x o3 E3. rd32 y o4 E4. rd32 xo o5 E5. rd32 yo o6 E6.
   rd32 xt o7 E7. rd32 yt o8 E8. rd32 xto o9 E9. rd32 yto o10 E10. rd16 cs o11 E11.
+  destruct ((x =? 0) || (y =? 0) || (x <=? xo) || (y <=? yo)) eqn:V1; [apply good_err|].
+  destruct ((xt =? 0) || (yt =? 0)) eqn:V2; [apply good_err|].
+  destruct ((xo <? xto) || (yo <? yto) || (xto + xt <=? xo) || (yto + yt <=? yo)); [apply good_err|].
+  destruct ((cs =? 0) || (16384 <? cs)) eqn:V4; [apply good_err|].
+  destruct (Z.ltb_spec (2 ^ 31) ((x - xo) * (y - yo))); [apply good_err|].
+  apply orb_false_iff in V1. destruct V1 as [V1 V1d]. apply orb_false_iff in V1. destruct V1 as [V1 V1c].
+  apply orb_false_iff in V1. destruct V1 as [V1a V1b].
+  apply Z.eqb_neq in V1a. apply Z.eqb_neq in V1b. apply Z.leb_gt in V1c. apply Z.leb_gt in V1d.
+  apply orb_false_iff in V2. destruct V2 as [V2a V2b]. apply Z.eqb_neq in V2a. apply Z.eqb_neq in V2b.
+  apply orb_false_iff in V4. destruct V4 as [V4a V4b]. apply Z.eqb_neq in V4a. apply Z.ltb_ge in V4b.
   eapply good_bind; [apply good_alloc with (post := fun _ => True); [lia|rewrite maxAlloc_val; lia|unfold KB; lia|exact I]|].
   intros _ _.
   eapply good_bind; [apply k_siz_comps_good; [auto|lia]|]. intros o12 Ho12. cbv beta in Ho12.
   destruct (negb (len =? 38 + 3 * cs)); [apply good_err|].
-  apply good_ret. cbn [fst snd s_c]. lia.
+  apply good_ret. unfold siz_ok; cbn [fst snd s_x s_y s_xo s_yo s_xt s_yt s_c]. repeat split; lia.
 Qed.
 
-Lemma k_coding_style_good : forall g d sc o, bytes d -> 0 <= o -> good g KB (fun o' => o <= o') (k_coding_style d sc o).
+Lemma k_coding_style_good : forall d sc o, bytes d -> 0 <= o -> good true KB (fun o' => o <= o') (k_coding_style d sc o).
 Proof.
   intros. unfold k_coding_style.
   rd8 nl o1 E1. rd8 a o2 E2. rd8 b o3 E3. rd8 c o4 E4. rd8 t o5 E5.
+  destruct ((8 <? a) || (8 <? b) || (8 <? a + b)); [apply good_err|].
+  destruct (32 <? nl); [apply good_err|].
   destruct (Z.odd sc); [|apply good_ret; lia].
   eapply good_bind; [apply good_alloc with (post := fun _ => True); [lia|rewrite maxAlloc_val; lia|unfold KB; lia|exact I]|].
   intros _ _. eapply good_weaken; [apply k_rd_bytes_good; [auto|lia]|lia|]. cbv beta; intros; lia.
 Qed.
 
-Lemma k_len_fix_good : forall g len start o, 0 <= len -> start <= o ->
-  good g KB (fun o' => start + len - 2 <= o' /\ o <= o') (k_len_fix len start o).
+Lemma k_len_fix_good : forall len start o, 0 <= len -> start <= o ->
+  good true KB (fun o' => start + len - 2 <= o' /\ o <= o') (k_len_fix len start o).
 Proof.
   intros. unfold k_len_fix. destruct (Z.ltb_spec (len - 2) (o - start)); [apply good_err|].
   apply good_ret. lia.
 Qed.
 
-Lemma k_parse_cod_good : forall g d o, bytes d -> 0 <= o -> good g KB (fun o' => o <= o') (k_parse_cod d o).
+Lemma k_parse_cod_good : forall d o, bytes d -> 0 <= o -> good true KB (fun o' => o <= o') (k_parse_cod d o).
 Proof.
   intros. unfold k_parse_cod.
   rd16 len o1 E1. rd8 sc o2 E2. rd8 pr o3 E3. rd16 ly o4 E4. rd8 mc o5 E5.
@@ -155,8 +126,8 @@ Proof.
   eapply good_weaken; [apply k_len_fix_good; lia|lia|]. cbv beta; intros; lia.
 Qed.
 
-Lemma k_parse_coc_good : forall g cs d o, bytes d -> 0 <= o ->
-  good g KB (fun x => o <= snd x) (k_parse_coc cs d o).
+Lemma k_parse_coc_good : forall cs d o, bytes d -> 0 <= o ->
+  good true KB (fun x => o <= snd x) (k_parse_coc cs d o).
 Proof.
   intros. unfold k_parse_coc.
   rd16 len o1 E1.
@@ -167,26 +138,15 @@ Proof.
   apply good_ret. cbn [snd]. lia.
 Qed.
 
-Lemma k_parse_qcd_good : forall g d o, bytes d -> 0 <= o -> good g KB (fun o' => o <= o') (k_parse_qcd g d o).
+Lemma k_parse_qcd_good : forall d o, bytes d -> 0 <= o -> good true KB (fun o' => o <= o') (k_parse_qcd d o).
 Proof.
   intros. unfold k_parse_qcd. rd16 len o1 E1. rd8 sq o2 E2.
-  destruct g; cbn [andb].
-  - destruct (Z.ltb_spec len 3); [apply good_err|].
-    eapply good_weaken; [apply k_read_buf_good; lia|lia|]. cbv beta; intros; lia.
-  - (* code as it stands: make([]byte, len-3) may panic; nothing to show for g = false but fuel and sizes *)
-    unfold k_read_buf, alloc.
-    destruct ((len - 3 <? 0) || (maxAlloc <? (len - 3) * 1)) eqn:Ea.
-    + unfold bind; cbn [fst snd]. unfold good; cbn [fst snd]. split; [discriminate|]. split; [discriminate|].
-      split; [repeat constructor; unfold KB; lia|intros; discriminate].
-    + unfold bind; cbn [fst snd]. apply orb_false_iff in Ea. destruct Ea as [Ea _]. apply Z.ltb_ge in Ea.
-      destruct (zlen d <? o + 2 + 1 + (len - 3)); unfold good, err, ret; cbn [fst snd].
-      * split; [discriminate|]. split; [discriminate|]. split; [repeat constructor; unfold KB; lia|intros; discriminate].
-      * split; [discriminate|]. split; [discriminate|]. split; [repeat constructor; unfold KB; lia|].
-        intros a Ha. inversion Ha; subst. lia.
+  destruct (Z.ltb_spec len 3); [apply good_err|].
+  eapply good_weaken; [apply k_read_buf_good; lia|lia|]. cbv beta; intros; lia.
 Qed.
 
-Lemma k_parse_qcc_good : forall g cs d o, bytes d -> 0 <= o ->
-  good g KB (fun x => o <= snd x) (k_parse_qcc cs d o).
+Lemma k_parse_qcc_good : forall cs d o, bytes d -> 0 <= o ->
+  good true KB (fun x => o <= snd x) (k_parse_qcc cs d o).
 Proof.
   intros. unfold k_parse_qcc. pose proof (comp_bytes_range cs).
   rd16 len o1 E1.
@@ -198,9 +158,9 @@ Proof.
   apply good_ret. cbn [snd]. lia.
 Qed.
 
-Lemma k_poc_entries_good : forall g cs d k o, bytes d -> 0 <= o -> good g KB (fun o' => o <= o') (k_poc_entries cs d k o).
+Lemma k_poc_entries_good : forall cs d k o, bytes d -> 0 <= o -> good true KB (fun o' => o <= o') (k_poc_entries cs d k o).
 Proof.
-  intros g cs d k. induction k as [|k IH]; intros o Hb Ho; cbn [k_poc_entries]; [apply good_ret; lia|].
+  intros cs d k. induction k as [|k IH]; intros o Hb Ho; cbn [k_poc_entries]; [apply good_ret; lia|].
   rd8 a o1 E1.
   eapply good_bind; [apply k_rd_comp_good; [auto|lia]|]. intros [b o2] (Ho2 & _). cbn [fst snd] in *.
   rd16 c o3 E3. rd8 e o4 E4.
@@ -209,7 +169,7 @@ Proof.
   eapply good_weaken; [apply IH; [auto|lia]|lia|]. cbv beta; intros; lia.
 Qed.
 
-Lemma k_parse_poc_good : forall g cs d o, bytes d -> 0 <= o -> good g KB (fun o' => o <= o') (k_parse_poc cs d o).
+Lemma k_parse_poc_good : forall cs d o, bytes d -> 0 <= o -> good true KB (fun o' => o <= o') (k_parse_poc cs d o).
 Proof.
   intros. unfold k_parse_poc. pose proof (comp_bytes_range cs).
   rd16 len o1 E1.
@@ -222,7 +182,7 @@ Proof.
   intros _ _. eapply good_weaken; [apply k_poc_entries_good; [auto|lia]|lia|]. cbv beta; intros; lia.
 Qed.
 
-Lemma k_parse_rgn_good : forall g cs d o, bytes d -> 0 <= o -> good g KB (fun o' => o <= o') (k_parse_rgn cs d o).
+Lemma k_parse_rgn_good : forall cs d o, bytes d -> 0 <= o -> good true KB (fun o' => o <= o') (k_parse_rgn cs d o).
 Proof.
   intros. unfold k_parse_rgn. pose proof (comp_bytes_range cs).
   rd16 len o1 E1.
@@ -233,24 +193,14 @@ Proof.
   eapply good_weaken; [apply k_read_buf_good; lia|lia|]. cbv beta; intros; lia.
 Qed.
 
-Lemma k_parse_com_good : forall g d o, bytes d -> 0 <= o -> good g KB (fun o' => o <= o') (k_parse_com g d o).
+Lemma k_parse_com_good : forall d o, bytes d -> 0 <= o -> good true KB (fun o' => o <= o') (k_parse_com d o).
 Proof.
   intros. unfold k_parse_com. rd16 len o1 E1. rd16 rc o2 E2.
-  destruct g; cbn [andb].
-  - destruct (Z.ltb_spec len 4); [apply good_err|].
-    eapply good_weaken; [apply k_read_buf_good; lia|lia|]. cbv beta; intros; lia.
-  - unfold k_read_buf, alloc.
-    destruct ((len - 4 <? 0) || (maxAlloc <? (len - 4) * 1)) eqn:Ea.
-    + unfold bind; cbn [fst snd]. unfold good; cbn [fst snd]. split; [discriminate|]. split; [discriminate|].
-      split; [repeat constructor; unfold KB; lia|intros; discriminate].
-    + unfold bind; cbn [fst snd]. apply orb_false_iff in Ea. destruct Ea as [Ea _]. apply Z.ltb_ge in Ea.
-      destruct (zlen d <? o + 2 + 2 + (len - 4)); unfold good, err, ret; cbn [fst snd].
-      * split; [discriminate|]. split; [discriminate|]. split; [repeat constructor; unfold KB; lia|intros; discriminate].
-      * split; [discriminate|]. split; [discriminate|]. split; [repeat constructor; unfold KB; lia|].
-        intros a Ha. inversion Ha; subst. lia.
+  destruct (Z.ltb_spec len 4); [apply good_err|].
+  eapply good_weaken; [apply k_read_buf_good; lia|lia|]. cbv beta; intros; lia.
 Qed.
 
-Lemma k_parse_mct_good : forall g d o, bytes d -> 0 <= o -> good g KB (fun o' => o <= o') (k_parse_mct d o).
+Lemma k_parse_mct_good : forall d o, bytes d -> 0 <= o -> good true KB (fun o' => o <= o') (k_parse_mct d o).
 Proof.
   intros. unfold k_parse_mct. rd16 len o1 E1.
   destruct (Z.ltb_spec (len - 2) 6); [apply good_err|].
@@ -259,9 +209,9 @@ Proof.
   eapply good_weaken; [apply k_read_buf_good; lia|lia|]. cbv beta; intros; lia.
 Qed.
 
-Lemma k_rd_ids_good : forall g two d k o, bytes d -> 0 <= o -> good g KB (fun o' => o <= o') (k_rd_ids two d k o).
+Lemma k_rd_ids_good : forall two d k o, bytes d -> 0 <= o -> good true KB (fun o' => o <= o') (k_rd_ids two d k o).
 Proof.
-  intros g two d k. induction k as [|k IH]; intros o Hb Ho; cbn [k_rd_ids]; [apply good_ret; lia|].
+  intros two d k. induction k as [|k IH]; intros o Hb Ho; cbn [k_rd_ids]; [apply good_ret; lia|].
   eapply good_bind with (pa := fun x => o <= snd x).
   { destruct two.
     - eapply good_weaken; [apply k_rd16_good; auto|lia|]. cbv beta. intros a (E & _ & _). lia.
@@ -273,7 +223,7 @@ Qed.
 Lemma mod_32768 : forall x, 0 <= x <= 65535 -> 0 <= x mod 32768 <= 32767.
 Proof. intros. pose proof (Z.mod_pos_bound x 32768 ltac:(lia)). lia. Qed.
 
-Lemma k_parse_mcc_good : forall g d o, bytes d -> 0 <= o -> good g KB (fun o' => o <= o') (k_parse_mcc d o).
+Lemma k_parse_mcc_good : forall d o, bytes d -> 0 <= o -> good true KB (fun o' => o <= o') (k_parse_mcc d o).
 Proof.
   intros. unfold k_parse_mcc. rd16 len o1 E1.
   destruct (Z.ltb_spec (len - 2) 7); [apply good_err|].
@@ -302,7 +252,7 @@ Proof.
   - cbv beta; intros; lia.
 Qed.
 
-Lemma k_parse_mco_good : forall g d o, bytes d -> 0 <= o -> good g KB (fun o' => o <= o') (k_parse_mco d o).
+Lemma k_parse_mco_good : forall d o, bytes d -> 0 <= o -> good true KB (fun o' => o <= o') (k_parse_mco d o).
 Proof.
   intros. unfold k_parse_mco. rd16 len o1 E1.
   destruct (Z.ltb_spec (len - 2) 1); [apply good_err|].
@@ -314,89 +264,92 @@ Proof.
   eapply good_weaken; [apply k_read_buf_good; lia|lia|]. cbv beta; intros; lia.
 Qed.
 
-Lemma k_main_segment_good : forall g st m d o, bytes d -> 0 <= o ->
-  good g KB (fun x => o <= snd x) (k_main_segment g st m d o).
+Definition KInv (st : kst) : Prop := forall s, k_siz st = Some s -> siz_ok s.
+Lemma KInv0 : KInv kst0. Proof. intros s H. discriminate. Qed.
+
+Lemma k_main_segment_good : forall st m d o, bytes d -> 0 <= o -> KInv st ->
+  good true KB (fun x => o <= snd x /\ KInv (fst x)) (k_main_segment st m d o).
 Proof.
-  intros g st m d o Hb Ho. unfold k_main_segment.
+  intros st m d o Hb Ho HK. unfold k_main_segment.
   set (seen := match k_siz st with Some _ => true | None => false end).
   destruct (m =? 81).
   { destruct seen; [apply good_err|].
-    eapply good_bind; [apply k_parse_siz_good; auto|]. intros [s o2] (Ho2 & _). apply good_ret. exact Ho2. }
+    eapply good_bind; [apply k_parse_siz_good; auto|]. intros [s o2] (Ho2 & Hs). apply good_ret. split; [exact Ho2|]. intros s' E. cbn [fst k_siz] in E. inversion E; subst. exact Hs. }
   destruct (m =? 82).
   { destruct (negb seen); [apply good_err|]. destruct (k_cod st); [apply good_err|].
-    eapply good_bind; [apply k_parse_cod_good; auto|]. intros o2 Ho2. apply good_ret. exact Ho2. }
+    eapply good_bind; [apply k_parse_cod_good; auto|]. intros o2 Ho2. apply good_ret; (split; [exact Ho2|exact HK]). }
   destruct (m =? 83).
   { destruct (negb seen); [apply good_err|]. destruct (negb (k_cod st)); [apply good_err|].
     eapply good_bind; [apply k_parse_coc_good; auto|]. intros [[c body] o2] Ho2. cbn [snd] in Ho2.
-    destruct (assoc (k_coc st) c); [destruct (negb (zlist_eqb l body)); [apply good_err|]|]; apply good_ret; exact Ho2. }
+    destruct (assoc (k_coc st) c); [destruct (negb (zlist_eqb l body)); [apply good_err|]|]; apply good_ret; (split; [exact Ho2|exact HK]). }
   destruct (m =? 92).
   { destruct (negb seen); [apply good_err|]. destruct (k_qcd st); [apply good_err|].
-    eapply good_bind; [apply k_parse_qcd_good; auto|]. intros o2 Ho2. apply good_ret. exact Ho2. }
+    eapply good_bind; [apply k_parse_qcd_good; auto|]. intros o2 Ho2. apply good_ret; (split; [exact Ho2|exact HK]). }
   destruct (m =? 93).
   { destruct (negb seen); [apply good_err|]. destruct (negb (k_qcd st)); [apply good_err|].
     eapply good_bind; [apply k_parse_qcc_good; auto|]. intros [[c body] o2] Ho2. cbn [snd] in Ho2.
-    destruct (assoc (k_qcc st) c); [destruct (negb (zlist_eqb l body)); [apply good_err|]|]; apply good_ret; exact Ho2. }
+    destruct (assoc (k_qcc st) c); [destruct (negb (zlist_eqb l body)); [apply good_err|]|]; apply good_ret; (split; [exact Ho2|exact HK]). }
   destruct (m =? 95).
   { destruct (negb seen); [apply good_err|]. destruct (negb (k_cod st)); [apply good_err|].
-    eapply good_bind; [apply k_parse_poc_good; auto|]. intros o2 Ho2. apply good_ret. exact Ho2. }
+    eapply good_bind; [apply k_parse_poc_good; auto|]. intros o2 Ho2. apply good_ret; (split; [exact Ho2|exact HK]). }
   destruct (m =? 94).
   { destruct (negb seen); [apply good_err|].
-    eapply good_bind; [apply k_parse_rgn_good; auto|]. intros o2 Ho2. apply good_ret. exact Ho2. }
+    eapply good_bind; [apply k_parse_rgn_good; auto|]. intros o2 Ho2. apply good_ret; (split; [exact Ho2|exact HK]). }
   destruct (m =? 100).
   { destruct (negb seen); [apply good_err|].
-    eapply good_bind; [apply k_parse_com_good; auto|]. intros o2 Ho2. apply good_ret. exact Ho2. }
+    eapply good_bind; [apply k_parse_com_good; auto|]. intros o2 Ho2. apply good_ret; (split; [exact Ho2|exact HK]). }
   destruct (m =? 116).
   { destruct (negb seen); [apply good_err|].
-    eapply good_bind; [apply k_parse_mct_good; auto|]. intros o2 Ho2. apply good_ret. exact Ho2. }
+    eapply good_bind; [apply k_parse_mct_good; auto|]. intros o2 Ho2. apply good_ret; (split; [exact Ho2|exact HK]). }
   destruct (m =? 117).
   { destruct (negb seen); [apply good_err|].
-    eapply good_bind; [apply k_parse_mcc_good; auto|]. intros o2 Ho2. apply good_ret. exact Ho2. }
+    eapply good_bind; [apply k_parse_mcc_good; auto|]. intros o2 Ho2. apply good_ret; (split; [exact Ho2|exact HK]). }
   destruct (m =? 119).
   { destruct (negb seen); [apply good_err|].
-    eapply good_bind; [apply k_parse_mco_good; auto|]. intros o2 Ho2. apply good_ret. exact Ho2. }
+    eapply good_bind; [apply k_parse_mco_good; auto|]. intros o2 Ho2. apply good_ret; (split; [exact Ho2|exact HK]). }
   destruct (negb seen); [apply good_err|].
-  eapply good_bind; [apply k_skip_good; auto|]. intros o2 Ho2. apply good_ret. exact Ho2.
+  eapply good_bind; [apply k_skip_good; auto|]. intros o2 Ho2. apply good_ret; (split; [exact Ho2|exact HK]).
 Qed.
 
 (* the loop: every iteration advances the offset by at least 2 (skipSegment with length 0 moves
    back by 2 after 4 bytes were consumed) *)
-Lemma k_main_loop_good : forall g fuel st d o, bytes d -> 0 <= o -> Z.max 0 (zlen d - o) < Z.of_nat fuel ->
-  good g KB (fun _ => True) (k_main_loop g fuel st d o).
+Lemma k_main_loop_good : forall fuel st d o, bytes d -> 0 <= o -> Z.max 0 (zlen d - o) < Z.of_nat fuel -> KInv st ->
+  good true KB (fun x => KInv (fst x)) (k_main_loop fuel st d o).
 Proof.
-  intros g fuel. induction fuel as [|k IH]; intros st d o Hb Ho Hf.
+  intros fuel. induction fuel as [|k IH]; intros st d o Hb Ho Hf HK.
   - exfalso. simpl in Hf. lia.
   - cbn [k_main_loop].
     eapply good_bind; [apply k_rd16_good; auto|]. intros [marker o1] (E & Hm & Hlen). cbn [fst snd] in *. subst o1.
-    destruct ((marker =? 65424) || (marker =? 65497)); [apply good_ret; exact I|].
-    eapply good_bind; [apply k_main_segment_good; [auto|lia]|]. intros [st' o2] Ho2. cbn [fst snd] in *.
-    apply IH; [auto|lia|lia].
+    destruct ((marker =? 65424) || (marker =? 65497)); [apply good_ret; exact HK|].
+    eapply good_bind; [apply k_main_segment_good; [auto|lia|exact HK]|]. intros [st' o2] (Ho2 & HK2). cbn [fst snd] in *.
+    apply IH; [auto|lia|lia|exact HK2].
 Qed.
 
-Lemma k_main_header_good : forall g d, bytes d -> good g KB (fun _ => True) (k_main_header g (fuel_of d) d).
+Lemma k_main_header_good : forall d, bytes d -> good true KB (fun x => siz_ok (fst x)) (k_main_header (fuel_of d) d).
 Proof.
-  intros g d Hb. unfold k_main_header.
+  intros d Hb. unfold k_main_header.
   eapply good_bind; [apply k_rd16_good; [auto|lia]|]. intros [soc o1] (E & _ & _). cbn [fst snd] in *. subst o1.
   destruct (negb (soc =? 65359)); [apply good_err|].
   eapply good_bind.
-  { apply k_main_loop_good; [auto|lia|]. unfold fuel_of, zlen. lia. }
-  intros [st o2] _. cbn [fst snd].
-  destruct (k_siz st); [|apply good_err].
+  { apply k_main_loop_good; [auto|lia| |apply KInv0]. unfold fuel_of, zlen. lia. }
+  intros [st o2] HK. cbn [fst snd] in *.
+  destruct (k_siz st) as [s|] eqn:Es; [|apply good_err].
   destruct (negb (k_cod st)); [apply good_err|]. destruct (negb (k_qcd st)); [apply good_err|].
-  apply good_ret. exact I.
+  apply good_ret. cbn [fst]. apply HK. exact Es.
 Qed.
 
 (* with the proposed checks in parseQCD / parseCOM the main-header parser never panics *)
-Theorem k_main_header_no_panic : forall d, bytes d -> fst (k_main_header true (fuel_of d) d) <> Panic.
-Proof. intros d Hb. apply (good_np _ _ _ (k_main_header_good true d Hb)). Qed.
+Theorem k_main_header_no_panic : forall d, bytes d -> fst (k_main_header (fuel_of d) d) <> Panic.
+Proof. intros d Hb. apply (good_np _ _ _ (k_main_header_good d Hb)). Qed.
 
 (* termination: length + 2 iterations suffice, also through skipSegment with length 0 or 1 *)
-Theorem k_main_header_fuel : forall g d, bytes d -> fst (k_main_header g (fuel_of d) d) <> OutOfFuel.
-Proof. intros g d Hb. apply (good_nf _ _ _ _ (k_main_header_good g d Hb)). Qed.
+Theorem k_main_header_fuel : forall d, bytes d -> fst (k_main_header (fuel_of d) d) <> OutOfFuel.
+Proof. intros d Hb. apply (good_nf _ _ _ _ (k_main_header_good d Hb)). Qed.
 
 (* every allocation request of the main-header parser is below 1 MiB, whatever the header says *)
-Theorem k_main_header_alloc : forall g d, bytes d ->
-  Forall (fun a => a <= 1048576) (snd (k_main_header g (fuel_of d) d)).
-Proof. intros g d Hb. apply (good_allocs _ _ _ _ (k_main_header_good g d Hb)). Qed.
+Theorem k_main_header_alloc : forall d, bytes d ->
+  Forall (fun a => a <= 1048576) (snd (k_main_header (fuel_of d) d)).
+Proof. intros d Hb. apply (good_allocs _ _ _ _ (k_main_header_good d Hb)). Qed.
 
 (* ================= tile-parts ================= *)
 Lemma k_scan_marker_range : forall fuel d o, o <= k_scan_marker fuel d o /\ (o <= zlen d -> k_scan_marker fuel d o <= zlen d).
@@ -407,20 +360,20 @@ Proof.
   destruct (IH d (o + 1)) as [A B]. split; [lia|]. intros _. apply B. lia.
 Qed.
 
-Lemma k_read_tile_data_good : forall g d o, 0 <= o <= zlen d -> good g KB (fun e => o <= e <= zlen d) (k_read_tile_data d o).
+Lemma k_read_tile_data_good : forall d o, 0 <= o <= zlen d -> good true KB (fun e => o <= e <= zlen d) (k_read_tile_data d o).
 Proof.
-  intros g d o Ho. unfold k_read_tile_data.
+  intros d o Ho. unfold k_read_tile_data.
   destruct (k_scan_marker_range (S (length d)) d o) as [A B]. specialize (B ltac:(lia)).
   destruct (Z.ltb_spec o 0); [lia|]. destruct (Z.ltb_spec (k_scan_marker (S (length d)) d o) o); [lia|].
   destruct (Z.ltb_spec (zlen d) (k_scan_marker (S (length d)) d o)); [lia|]. cbn [orb].
   apply good_ret. lia.
 Qed.
 
-Lemma k_read_tile_data_len_good : forall g d ts psot o, 0 <= o <= zlen d -> 0 <= psot ->
-  good g KB (fun e => o <= e) (k_read_tile_data_len d ts psot o).
+Lemma k_read_tile_data_len_good : forall d ts psot o, 0 <= o <= zlen d -> 0 <= psot ->
+  good true KB (fun e => o <= e) (k_read_tile_data_len d ts psot o).
 Proof.
-  intros g d ts psot o Ho Hp. unfold k_read_tile_data_len.
-  assert (W : good g KB (fun e => o <= e) (k_read_tile_data d o)).
+  intros d ts psot o Ho Hp. unfold k_read_tile_data_len.
+  assert (W : good true KB (fun e => o <= e) (k_read_tile_data d o)).
   { eapply good_weaken; [apply k_read_tile_data_good; lia|lia|]. cbv beta; intros; lia. }
   destruct (psot =? 0); [exact W|].
   destruct (Z.ltb_spec psot (o - ts)); [exact W|].
@@ -429,8 +382,8 @@ Proof.
   apply good_ret. lia.
 Qed.
 
-Lemma k_parse_sot_good : forall g d o, bytes d -> 0 <= o ->
-  good g KB (fun x => let '(i, p, o') := x in o <= o' /\ o' <= zlen d /\ 0 <= p) (k_parse_sot d o).
+Lemma k_parse_sot_good : forall d o, bytes d -> 0 <= o ->
+  good true KB (fun x => let '(i, p, o') := x in o <= o' /\ o' <= zlen d /\ 0 <= p) (k_parse_sot d o).
 Proof.
   intros. unfold k_parse_sot. rd16 len o1 E1.
   destruct (negb (len =? 10)); [apply good_err|].
@@ -442,10 +395,10 @@ Proof.
   intros a Ha. inversion Ha; subst. lia.
 Qed.
 
-Lemma k_tile_segment_good : forall g cs ts m d o, bytes d -> 0 <= o ->
-  good g KB (fun x => o <= snd x) (k_tile_segment g cs ts m d o).
+Lemma k_tile_segment_good : forall cs ts m d o, bytes d -> 0 <= o ->
+  good true KB (fun x => o <= snd x) (k_tile_segment cs ts m d o).
 Proof.
-  intros g cs ts m d o Hb Ho. unfold k_tile_segment.
+  intros cs ts m d o Hb Ho. unfold k_tile_segment.
   destruct (m =? 82).
   { eapply good_bind; [apply k_parse_cod_good; auto|]. intros o2 Ho2. apply good_ret. exact Ho2. }
   destruct (m =? 83).
@@ -471,10 +424,10 @@ Qed.
 
 (* the tile-part header loop ends right after a SOD marker that was read inside the data, so
    readTileData's slice expression p.data[start:offset] has start <= len(data) *)
-Lemma k_tile_loop_good : forall g fuel cs ts d o, bytes d -> 0 <= o -> Z.max 0 (zlen d - o) < Z.of_nat fuel ->
-  good g KB (fun o' => o <= o' <= zlen d) (k_tile_loop g fuel cs ts d o).
+Lemma k_tile_loop_good : forall fuel cs ts d o, bytes d -> 0 <= o -> Z.max 0 (zlen d - o) < Z.of_nat fuel ->
+  good true KB (fun o' => o <= o' <= zlen d) (k_tile_loop fuel cs ts d o).
 Proof.
-  intros g fuel. induction fuel as [|k IH]; intros cs ts d o Hb Ho Hf.
+  intros fuel. induction fuel as [|k IH]; intros cs ts d o Hb Ho Hf.
   - exfalso. simpl in Hf. lia.
   - cbn [k_tile_loop].
     eapply good_bind; [apply k_rd16_good; auto|]. intros [marker o1] (E & Hm & Hlen). cbn [fst snd] in *. subst o1.
@@ -483,10 +436,10 @@ Proof.
     eapply good_weaken; [apply IH; [auto|lia|lia]|apply Z.le_refl|]. cbv beta; intros; lia.
 Qed.
 
-Lemma k_parse_tile_good : forall g cs d o, bytes d -> 0 <= o ->
-  good g KB (fun x => o + 2 <= snd x) (k_parse_tile g (fuel_of d) cs d o).
+Lemma k_parse_tile_good : forall cs d o, bytes d -> 0 <= o ->
+  good true KB (fun x => o + 2 <= snd x) (k_parse_tile (fuel_of d) cs d o).
 Proof.
-  intros g cs d o Hb Ho. unfold k_parse_tile.
+  intros cs d o Hb Ho. unfold k_parse_tile.
   rd16 mk o1 E1. destruct (negb (mk =? 65424)); [apply good_err|].
   eapply good_bind; [apply k_parse_sot_good; [auto|lia]|]. intros [[isot psot] o2] (A & B & C).
   eapply good_bind.
@@ -498,13 +451,44 @@ Qed.
 
 (* a tile-part (SOT, tile-part header, data) is parsed without panic (with the QCD length check),
    within length+2 loop iterations, with small allocation requests, and consumes at least 2 bytes *)
-Theorem k_parse_tile_no_panic : forall cs d o, bytes d -> 0 <= o -> fst (k_parse_tile true (fuel_of d) cs d o) <> Panic.
-Proof. intros cs d o Hb Ho. apply (good_np _ _ _ (k_parse_tile_good true cs d o Hb Ho)). Qed.
-Theorem k_parse_tile_fuel : forall g cs d o, bytes d -> 0 <= o -> fst (k_parse_tile g (fuel_of d) cs d o) <> OutOfFuel.
-Proof. intros g cs d o Hb Ho. apply (good_nf _ _ _ _ (k_parse_tile_good g cs d o Hb Ho)). Qed.
-Theorem k_parse_tile_progress : forall g cs d o i o', bytes d -> 0 <= o ->
-  fst (k_parse_tile g (fuel_of d) cs d o) = Ok (i, o') -> o + 2 <= o'.
+Theorem k_parse_tile_no_panic : forall cs d o, bytes d -> 0 <= o -> fst (k_parse_tile (fuel_of d) cs d o) <> Panic.
+Proof. intros cs d o Hb Ho. apply (good_np _ _ _ (k_parse_tile_good cs d o Hb Ho)). Qed.
+Theorem k_parse_tile_fuel : forall cs d o, bytes d -> 0 <= o -> fst (k_parse_tile (fuel_of d) cs d o) <> OutOfFuel.
+Proof. intros cs d o Hb Ho. apply (good_nf _ _ _ _ (k_parse_tile_good cs d o Hb Ho)). Qed.
+Theorem k_parse_tile_progress : forall cs d o i o', bytes d -> 0 <= o ->
+  fst (k_parse_tile (fuel_of d) cs d o) = Ok (i, o') -> o + 2 <= o'.
 Proof.
-  intros g cs d o i o' Hb Ho E. destruct (k_parse_tile_good g cs d o Hb Ho) as (_ & _ & _ & P).
+  intros cs d o i o' Hb Ho E. destruct (k_parse_tile_good cs d o Hb Ho) as (_ & _ & _ & P).
   apply (P (i, o') E).
+Qed.
+
+(* ================= NewTileAssembler on a validated SIZ (F39/F40) ================= *)
+Lemma k_comp_allocs_good : forall k n B, 0 <= n -> n * 4 <= maxAlloc -> n * 4 <= B ->
+  good true B (fun _ => True) (k_comp_allocs k n).
+Proof.
+  induction k as [|k IH]; intros n B H0 H1 H2; cbn [k_comp_allocs]; [apply good_ret; exact I|].
+  eapply good_bind; [apply good_alloc with (post := fun _ => True); [lia|lia|lia|exact I]|]. intros _ _. apply IH; lia.
+Qed.
+Definition siz_S (s : ksiz) : Z := (s_x s - s_xo s) * (s_y s - s_yo s) * s_c s.
+Lemma k_assembler_good : forall s, siz_ok s -> good true (4 * siz_S s + 393216) (fun _ => True) (k_assembler s).
+Proof.
+  intros s (X1 & X2 & Y1 & Y2 & T1 & T2 & C & A). unfold k_assembler, siz_S.
+  assert (H0 : 1 <= (s_x s - s_xo s) * (s_y s - s_yo s)) by nia.
+  change (2 ^ 31) with 2147483648 in A.
+  assert (Hi : i64 ((s_x s - s_xo s) * (s_y s - s_yo s)) = (s_x s - s_xo s) * (s_y s - s_yo s)).
+  { unfold i64, wrapS. change (2 ^ 64) with 18446744073709551616. change (2 ^ (64 - 1)) with 9223372036854775808.
+    rewrite Z.mod_small by lia. destruct (Z.ltb_spec ((s_x s - s_xo s) * (s_y s - s_yo s)) 9223372036854775808); lia. }
+  rewrite Hi.
+  assert (HS : (s_x s - s_xo s) * (s_y s - s_yo s) <= (s_x s - s_xo s) * (s_y s - s_yo s) * s_c s) by nia.
+  eapply good_bind; [apply good_alloc with (post := fun _ => True); [lia|rewrite maxAlloc_val; lia|lia|exact I]|]. intros _ _.
+  apply k_comp_allocs_good; [lia|rewrite maxAlloc_val; lia|lia].
+Qed.
+
+(* whatever main header the parser accepts, the image buffers of the decoder can be requested
+   without panic and each request is at most 4 bytes per declared sample *)
+Theorem k_header_then_assembler : forall d s o, bytes d -> fst (k_main_header (fuel_of d) d) = Ok (s, o) ->
+  fst (k_assembler s) <> Panic /\ Forall (fun a => a <= 4 * siz_S s + 393216) (snd (k_assembler s)).
+Proof.
+  intros d s o Hb E. destruct (k_main_header_good d Hb) as (_ & _ & _ & P). specialize (P (s, o) E). cbn [fst] in P.
+  destruct (k_assembler_good s P) as (A & _ & B & _). split; [apply A; reflexivity|exact B].
 Qed.
